@@ -123,7 +123,35 @@ func AssertKF(label string, c bool, kf string, region bool) {
 	}
 }
 
+// And / Or / Implies are non-forking boolean combinators (a Go && on symbolic operands forks the path under the engine).
+func And(bs ...bool) bool {
+	for _, b := range bs {
+		if !b {
+			return false
+		}
+	}
+	return true
+}
+
+func Or(bs ...bool) bool {
+	for _, b := range bs {
+		if b {
+			return true
+		}
+	}
+	return false
+}
+
+func Implies(a, b bool) bool { return !a || b }
+
 func Reach(label string) { Reached[label] = true }
+
+// ReachIf records label as reached when cond can hold on the current path (vacuity guard; never forks).
+func ReachIf(label string, cond bool) {
+	if cond {
+		Reached[label] = true
+	}
+}
 
 // Try runs f and reports whether it panicked.
 func Try(f func()) (panicked bool) {
